@@ -62,10 +62,15 @@ static constexpr size_t kStride = dispenso::detail::alignToCacheLine(sizeof(Res)
 // size of the backing allocation is a constant for the solver (a symbolic allocation size makes
 // cbmc model the block as an unbounded array)
 static inline void makePool(PoolHolder& h, uint32_t size) {
+#if VF_SYMSIZE
   if (size == 1) new (&h.p) Pool(1, Init{});
+#if VF_SIZE >= 3
   else if (size == 2) new (&h.p) Pool(2, Init{});
-  else if (size == 3) new (&h.p) Pool(3, Init{});
-  else new (&h.p) Pool(4, Init{});
+#endif
+  else new (&h.p) Pool(VF_SIZE, Init{});
+#else
+  new (&h.p) Pool(VF_SIZE, Init{});
+#endif
 }
 
 // index of the pool resource `p` points to, -1 if it is none of them
